@@ -18,7 +18,7 @@ YS = A(Int, A(EvK, Int))
 
 
 class StreamInteractions(Contract):
-    props = ('C05',)
+    props = ('C05', 'C10')
 
     def __init__(self, cls, bound_n=None):
         self.cls = cls
@@ -64,10 +64,31 @@ class StreamInteractions(Contract):
             return [('below_t_as_before_at_t_the_visited_keys',
                      FA([q, key], ycnt[q][key] == z3.If(q == t, b2i(z3.And(L.vis(key), self.logged(g, q, key))), y0[q][key]), [ycnt[q][key]])),
                     ('last_yield_not_after_t', z3.Implies(yany, ylast <= t))]
-        return {'seq/1': LoopSpec(outer, modifies={}, tags=('C05',)), 'bag/1': LoopSpec(inner, modifies={}, tags=('C05',))}
+        return {'seq/1': LoopSpec(outer, modifies={}, tags=('C05', 'C10')), 'bag/1': LoopSpec(inner, modifies={}, tags=('C05', 'C10'))}
+
+    def apply(self, interp, g, argv, kwv):
+        """caller side: a chronological enumeration of exactly the logged events, each once"""
+        ctx = interp.ctx
+        from pyvc.sym import fresh_fun, evk as _evk
+        n = fresh('n_events', Int)
+        key = fresh_fun('ev_key', Int, EvK)
+        tm = fresh_fun('ev_time', Int, Int)
+        idx = fresh_fun('ev_idx', Int, EvK, Int)
+        i, j, q = z3.Int('i?sa'), z3.Int('j?sa'), z3.Int('q?sa')
+        k = z3.Const('k?sa', EvK)
+        from pyvc.sym import inb
+        ctx.assume(n >= 0, 'call')
+        ctx.assume(FA([i, j], z3.Implies(z3.And(0 <= i, i < j, j < n), tm(i) <= tm(j)), [z3.MultiPattern(tm(i), tm(j))]), 'call')
+        ctx.assume(FA([i], z3.Implies(inb(i, n), self.logged(g, tm(i), key(i))), [key(i)]), 'call')
+        ctx.assume(FA([q, k], z3.Implies(self.logged(g, q, k), z3.And(inb(idx(q, k), n), tm(idx(q, k)) == q, key(idx(q, k)) == k)), [g['Ev'][q][k]]), 'call')
+        ctx.assume(FA([i, j], z3.Implies(z3.And(inb(i, n), inb(j, n), i != j), z3.Or(tm(i) != tm(j), key(i) != key(j))), [z3.MultiPattern(key(i), key(j))]), 'call')
+        from pyvc.sym import ea, eb, eop
+        seq = VSeq(n, lambda p: VTuple([VNode(ea(key(p))), VNode(eb(key(p))), VOp(eop(key(p))), VInt(tm(p))]), {'elem_kind': 'tuple', 'key': key, 'time': tm})
+        ctx.gi_seq = seq
+        return seq
 
     def finish(self, ctx, c, outcome):
-        T = ('C05',)
+        T = ('C05', 'C10')
         if outcome[0] == 'raise':
             return self.forbid(ctx, 'C05.stream.no_exception.%s' % outcome[1], tags=T, note=outcome[2])
         r = outcome[1]
